@@ -25,6 +25,7 @@ REASONS = {
     6: "unlink-without-durable-superseding-file",
     7: "ack-of-non-final-name",
     8: "open-for-write-of-final-name",
+    9: "directory-removed-or-replaced-while-holding-known-files",
 }
 
 F10 = "C11/ack-before-dir-fsync:fetched-baseline-L0"
@@ -120,7 +121,7 @@ def run(v):
         return
     out = os.path.join(C.WORK, PID)
     fresh_out(out)
-    n = 12 if v.tier == "quick" else 120
+    n = 18 if v.tier == "quick" else 180
     rc, o = C.sh([C.harness_bin(HARNESS), "crash", "-mode", "trace", "-out", out, "-n", str(n), "-seed", str(v.seed)],
                  timeout=3000)
     if rc != 0:
@@ -142,10 +143,13 @@ def run(v):
         "traces_validated_against_impl": total,
         "rule": "one case per real system-call trace: deterministic scripts (sync + upload to a file replica, snapshot, "
                 "compaction, retention incl. L0/snapshot/TXID retention, passive checkpoint, restore, follow-mode restore, "
-                "TXID sidecar, baseline fetch after losing local state) over the real litestream code in a child process "
+                "TXID sidecar, baseline fetch after losing local state; and over ONE OPEN DB with directories removed and re-created "
+                "between publishes: ResetLocalState then syncs, ResetLocalState + behind-replica baseline fetch then syncs and "
+                "uploads, restore / sidecar into a re-created output directory with compaction and retention in between) over the real litestream code in a child process "
                 "under strace -f -y; script parameters (rounds, rows, payload size, PRNG seed) drawn from the seeded PRNG; "
                 "the trace is reduced to litestream's own files (LTX, .tmp, restore output, -txid; SQLite's db/-wal/-shm "
-                "ignored) plus ack markers the child writes after each acknowledged operation, and checked by the extracted "
+                "ignored) plus mkdir/rmdir (directories are objects with a generation per path in the model, so an fsync through a descriptor "
+                "opened before a directory was removed and re-created does not count) and ack markers the child writes after each acknowledged operation, and checked by the extracted "
                 "Coq monitor publish_ok. distinct = distinct reduced traces; non-trivial = the trace contains at least one "
                 "rename to a final name.",
         "samples": sample,
